@@ -17,7 +17,7 @@ type legacyHandler struct {
 	eventMgr event.Manager
 
 	rwMutex
-	prevResourceResponse bool
+	prevResourceResponse *bool
 	outstandingPacks     *deque.Deque[*Info]
 	pendingPack          *Info
 	appliedPack          *Info
@@ -86,12 +86,10 @@ func (h *legacyHandler) QueueResourcePack(info *Info) error {
 
 // with comments form java code
 func (h *legacyHandler) tickResourcePackQueue() error {
-	h.Lock()
-	defer h.Unlock()
 	queued, ok := h.outstandingPacks.Front()
 	if ok {
 		// Check if the player declined a resource pack once already
-		if !h.prevResourceResponse {
+		if h.prevResourceResponse != nil && !*h.prevResourceResponse {
 			// If that happened we can flush the queue right away.
 			// Unless its 1.17+ and forced it will come back denied anyway
 			for h.outstandingPacks.Len() > 0 {
@@ -104,7 +102,7 @@ func (h *legacyHandler) tickResourcePackQueue() error {
 					Hash:   queued.Hash,
 					Status: DeclinedResponseStatus,
 				}
-				_, err := h.OnResourcePackResponse(resBundle)
+				_, err := h.onResourcePackResponseLocked(resBundle, h.shouldDisconnectForForcePack, false)
 				if err != nil {
 					return err
 				}
@@ -132,16 +130,27 @@ func (h *legacyHandler) onResourcePackResponse(
 ) (bool, error) {
 	h.Lock()
 	defer h.Unlock()
+	return h.onResourcePackResponseLocked(bundle, shouldDisconnectForForcePack, true)
+}
 
+func (h *legacyHandler) onResourcePackResponseLocked(
+	bundle *ResponseBundle,
+	shouldDisconnectForForcePack func(e *PlayerResourcePackStatusEvent) bool,
+	tick bool,
+) (bool, error) {
 	peek := bundle.Status.Intermediate()
 	var queued *Info
 	if peek {
 		queued, _ = h.outstandingPacks.Front()
-	} else {
+	} else if h.outstandingPacks.Len() > 0 {
 		queued = h.outstandingPacks.PopFront()
 	}
 
-	e := newPlayerResourcePackStatusEvent(h.player, bundle.Status, bundle.ID, *queued)
+	var packInfo Info
+	if queued != nil {
+		packInfo = *queued
+	}
+	e := newPlayerResourcePackStatusEvent(h.player, bundle.Status, bundle.ID, packInfo)
 	event.FireParallel(h.eventMgr, e, func(e *PlayerResourcePackStatusEvent) {
 		if shouldDisconnectForForcePack(e) {
 			h.player.Disconnect(&component.Translation{
@@ -152,10 +161,12 @@ func (h *legacyHandler) onResourcePackResponse(
 
 	switch bundle.Status {
 	case AcceptedResponseStatus:
-		h.prevResourceResponse = true
+		t := true
+		h.prevResourceResponse = &t
 		h.pendingPack = queued
 	case DeclinedResponseStatus:
-		h.prevResourceResponse = false
+		f := false
+		h.prevResourceResponse = &f
 	case SuccessfulResponseStatus:
 		h.appliedPack = queued
 		h.pendingPack = nil
@@ -170,7 +181,7 @@ func (h *legacyHandler) onResourcePackResponse(
 	}
 
 	var err error
-	if !peek {
+	if !peek && tick {
 		err = h.tickResourcePackQueue()
 	}
 	handled, err2 := h.HandleResponseResult(queued, bundle)
